@@ -55,8 +55,32 @@ def func(draw, i):
                 is_traced=draw(st.sampled_from([True, True, True, False])), fname=draw(st.sampled_from(FNAMES)) + str(i))
 
 
-def module(max_funcs=4):
-    return st.integers(1, max_funcs).flatmap(lambda n: st.tuples(*[func(i) for i in range(n)])).map(list)
+@st.composite
+def module(draw, max_funcs=4):
+    n = draw(st.integers(1, max_funcs))
+    fs = [draw(func(i)) for i in range(n)]
+    if draw(st.integers(0, 4)) == 0:
+        # a twin: the same function again (same place, same name length, same parameters, annotations, defaults and traced
+        # types) except that its keyword-only parameters come in the opposite order - two signatures that compare equal
+        # under inspect.Signature.__eq__, which ignores the order of keyword-only parameters
+        import copy
+        base = draw(st.sampled_from([f for f in fs if f["where"] not in ("property", "subproperty")] or fs))
+        if base["where"] not in ("property", "subproperty"):
+            kw = [p for p in base["ps"] if p["kind"] == 2]
+            used = {p["name"] for p in base["ps"]}
+            for name in ("kwx", "kwy"):
+                if len(kw) < 2 and name not in used:
+                    p = dict(name=name, kind=2, default=draw(st.sampled_from([None, "None", "1"])), anno=draw(st.sampled_from(ANNOS)), traced=draw(st.sampled_from([0, 1, 2, 5])))
+                    base["ps"].append(p)
+                    kw.append(p)
+            twin = copy.deepcopy(base)
+            twin["i"] = n
+            twin["fname"] = base["fname"][: -len(str(base["i"]))] + str(n)
+            rest = [p for p in twin["ps"] if p["kind"] != 2]
+            twin["ps"] = rest + list(reversed([p for p in twin["ps"] if p["kind"] == 2]))
+            twin["is_traced"] = base["is_traced"] = True
+            fs.append(twin)
+    return fs
 
 
 def sig(f, recv):
